@@ -1,4 +1,5 @@
 #!/bin/bash
+export VERIF_EVIDENCE_DIR=$(mktemp -d /tmp/evid.XXXX)   # runs on patched trees must not overwrite the committed evidence
 # tools_refactor.sh <name> <worktree> <props...>: a behaviour-preserving edit must not raise an alarm (exit 0 or 2, never a VIOLATION)
 NAME=$1; WT=$2; shift 2
 D=/verif/seeded/$NAME; mkdir -p $D
